@@ -328,6 +328,8 @@ impl Node {
                         handle.send(Message::Regular { from: None, body }).await?;
                     } else {
                         let pid_str = format!("{}.{}.{}", pid.id, pid.serial, pid.creation);
+                        #[cfg(edp_rs_verif)]
+                        edp_client::verif::sched_point("route::before_pending_lookup").await;
                         if let Some((_key, sender)) = pending_rpcs.remove(&pid_str) {
                             let _ = sender.send(body);
                         }
@@ -454,6 +456,8 @@ impl Node {
                 .pid_allocator
                 .allocate()
                 .expect("PID allocator lock poisoned");
+            #[cfg(edp_rs_verif)]
+            edp_client::verif::sched_point("node::before_connection_lock").await;
             let mut conn_guard = conn.lock().await;
             conn_guard.send_message(from, to.clone(), message).await?;
             Ok(())
@@ -476,6 +480,8 @@ impl Node {
             let node_name = to.node.as_str();
 
             if let Some(conn) = self.connections.get(node_name) {
+                #[cfg(edp_rs_verif)]
+                edp_client::verif::sched_point("node::before_connection_lock").await;
                 let mut conn_guard = conn.lock().await;
                 conn_guard.link(from, to).await?;
                 Ok(())
@@ -500,6 +506,8 @@ impl Node {
 
             if let Some(conn) = self.connections.get(node_name) {
                 let unlink_id = self.reference_counter.fetch_add(1, Ordering::SeqCst) as u64;
+                #[cfg(edp_rs_verif)]
+                edp_client::verif::sched_point("node::before_connection_lock").await;
                 let mut conn_guard = conn.lock().await;
                 conn_guard.unlink(from, to, unlink_id).await?;
                 Ok(())
@@ -536,6 +544,8 @@ impl Node {
             let node_name = to.node.as_str();
 
             if let Some(conn) = self.connections.get(node_name) {
+                #[cfg(edp_rs_verif)]
+                edp_client::verif::sched_point("node::before_connection_lock").await;
                 let mut conn_guard = conn.lock().await;
                 conn_guard.monitor(from, to, &reference).await?;
                 Ok(reference)
@@ -560,6 +570,8 @@ impl Node {
             let node_name = to.node.as_str();
 
             if let Some(conn) = self.connections.get(node_name) {
+                #[cfg(edp_rs_verif)]
+                edp_client::verif::sched_point("node::before_connection_lock").await;
                 let mut conn_guard = conn.lock().await;
                 conn_guard.demonitor(from, to, reference).await?;
                 Ok(())
@@ -655,6 +667,8 @@ impl Node {
             reply_to_pid.id, reply_to_pid.serial, reply_to_pid.creation
         );
         self.pending_rpcs.insert(pid_str.clone(), tx);
+        #[cfg(edp_rs_verif)]
+        edp_client::verif::sched_point("rpc::registered").await;
 
         tracing::debug!("RPC call_request: {:?}", call_request);
         tracing::debug!("RPC reply_to_pid: {:?}", reply_to_pid);
@@ -662,6 +676,8 @@ impl Node {
         tracing::trace!("Looking up connection for node: {}", remote_node);
         if let Some(conn) = self.connections.get(remote_node) {
             tracing::trace!("Found connection, sending to rex");
+            #[cfg(edp_rs_verif)]
+            edp_client::verif::sched_point("node::before_connection_lock").await;
             let mut conn_guard = conn.lock().await;
             conn_guard
                 .send_to_name(reply_to_pid, Atom::new("rex"), call_request)
@@ -674,6 +690,8 @@ impl Node {
         }
 
         let response = tokio::time::timeout(timeout, rx).await;
+        #[cfg(edp_rs_verif)]
+        edp_client::verif::sched_point("rpc::wait_finished").await;
 
         if response.is_err() {
             self.pending_rpcs.remove(&pid_str);
